@@ -11,8 +11,14 @@ sys.path.insert(0, HERE)
 from vf import run, smt
 from vf.contract import verify_function, verify_fragment
 out = {}
+only = set(sys.argv[1:])
+if only:
+    # tools/gen_baseline.py Cxx ... : refresh the listed properties only
+    out = json.load(open(os.path.join(HERE, 'baseline', 'obligations.json')))
 for l in open(os.path.join(HERE, 'properties.jsonl')):
     pid = json.loads(l)['id']
+    if only and pid not in only:
+        continue
     plan = importlib.import_module('props.' + pid)
     w = run.build_world(plan)
     names = set()
